@@ -270,10 +270,15 @@ class CachedStore(Entity):
         flushed = 0
         for key in list(self._dirty_keys):
             if key in self._cache:
-                yield from self._backing_store.put(key, self._cache[key])
-                self._dirty_keys.discard(key)
-                self._writebacks += 1
-                flushed += 1
+                # Pay the write latency first and write what is cached when the
+                # write lands: a put() that completes during the latency must
+                # neither be overwritten by an older value nor lose its dirty flag.
+                yield self._backing_store.write_latency
+                if key in self._dirty_keys and key in self._cache:
+                    self._backing_store.put_sync(key, self._cache[key])
+                    self._dirty_keys.discard(key)
+                    self._writebacks += 1
+                    flushed += 1
         return flushed
 
     def _cache_put(self, key: str, value: Any) -> None:
